@@ -101,3 +101,21 @@ where
     }
     len
 }
+
+/// Callbacks that merely happen to be called `skip` (like `logos::skip`), `emit`, `filter`: a user's function is
+/// called whatever its name is.
+pub mod named {
+    use super::*;
+    cb!(skip -> bool, |sel, len, lex| sel % 2 == 0);
+    cb!(emit -> Skip, |sel, len, lex| Skip);
+    cb!(filter -> (), |sel, len, lex| ());
+}
+pub mod valued {
+    use super::*;
+    cb!(skip -> u32, |sel, len, lex| len);
+    cb!(error -> Option<u32>, |sel, len, lex| if sel % 2 == 0 { Some(len) } else { None });
+}
+pub mod skipping {
+    use super::*;
+    cb!(skip -> Result<(), u8>, |sel, len, lex| if sel < 3 { Ok(()) } else { Err(sel) });
+}
